@@ -106,6 +106,14 @@ def run(e: Engine, rep: Report):
                  'clean-up RSET was answered (an unanswered RSET left '
                  'behind shifts every reply of the next message by one: a '
                  'refusal is reported as a delivery)', only={'L7'})
+    rep.rule('N22', 'what the peer advertised is turned into a number '
+             'only where a bad value is expected: an int() / float() of an '
+             'extension parameter (getparam without a filter, '
+             'extensions[...]) in the SMTP client or the relay clients lies '
+             'in a try that takes ValueError and TypeError - `SIZE` without '
+             'a value (RFC 1870) gives None, and the TypeError of int(None) '
+             'is neither a result nor a relay error')
+    n22(e, rep)
     rep.floor('N1', 9, 'relay implementations / set sites')
     rep.floor('N2', 12, 'client command sites')
 
@@ -2449,3 +2457,79 @@ def n16(e: Engine, rep: Report, rule: str = 'N16'):
     if n == 0:
         rep.ok(rule, 'slimta.relay', 'no greenlet value collected after a '
                'kill', reason='nothing to check', nontrivial=False)
+
+
+# ---------------------------------------------------------------------- N22
+def n22(e: Engine, rep: Report):
+    mods = [m for q, m in e.p.modules.items()
+            if q == 'slimta.smtp.client' or q.startswith('slimta.relay.smtp')]
+    if not mods:
+        rep.error('anchor vanished: slimta.smtp.client / slimta.relay.smtp')
+        return
+
+    def advertised(x):
+        if isinstance(x, ast.Call) and isinstance(x.func, ast.Attribute) \
+                and x.func.attr == 'getparam':
+            return not (len(x.args) > 1 or any(
+                k.arg == 'filter' for k in x.keywords))
+        if isinstance(x, ast.Subscript) and \
+                isinstance(x.value, ast.Attribute) and \
+                x.value.attr == 'extensions':
+            return True
+        return False
+    n = 0
+    for f in e.p.functions.values():
+        if f.module not in mods:
+            continue
+        conv = [c for c in walk_own(f.node) if isinstance(c, ast.Call) and
+                isinstance(c.func, ast.Name) and
+                c.func.id in ('int', 'float') and len(c.args) >= 1]
+        if not conv:
+            continue
+        local = {}
+        for a in walk_own(f.node):
+            if isinstance(a, ast.Assign) and len(a.targets) == 1 and \
+                    isinstance(a.targets[0], ast.Name):
+                local.setdefault(a.targets[0].id, []).append(a.value)
+        for c in conv:
+            a0 = c.args[0]
+            src = [a0] if not isinstance(a0, ast.Name) else \
+                local.get(a0.id, [])
+            if not any(advertised(v) for v in src):
+                continue
+            n += 1
+            rep.evaluations += 1
+            rep.functions.add(f.qname)
+            guarded = False
+            for t in walk_own(f.node):
+                if isinstance(t, ast.Try) and any(
+                        c in ast.walk(b) for b in t.body):
+                    names = set()
+                    for h in t.handlers:
+                        if h.type is None:
+                            names |= {'ValueError', 'TypeError'}
+                        else:
+                            for y in ast.walk(h.type):
+                                if isinstance(y, ast.Name):
+                                    names.add(y.id)
+                    if {'ValueError', 'TypeError'} <= names or \
+                            names & {'Exception', 'BaseException'}:
+                        guarded = True
+            rep.check(guarded, 'N22', f.qname,
+                      '`%s` expects a bad value'
+                      % ' '.join(ast.unparse(c).split())[:50],
+                      '`%s` converts what the server advertised: an '
+                      'extension named without a value gives None (TypeError), '
+                      'one with text in place of the number ValueError - '
+                      'neither is a relay error, so the attempt ends with an '
+                      'exception type the queue does not classify (or the '
+                      'raw exception as the result) although the server '
+                      'would have taken the message'
+                      % ' '.join(ast.unparse(c).split())[:50],
+                      loc=f.loc(c), reason='inside try/except ValueError, '
+                      'TypeError')
+    rep.evaluations += 1
+    if n == 0:
+        rep.ok('N22', 'slimta.relay.smtp', 'no int() / float() of an '
+               'advertised extension parameter in %d module(s)' % len(mods),
+               reason='nothing converted by the caller', nontrivial=False)
